@@ -1,6 +1,7 @@
 (* PV.C07.Proofs — lemmas about the C07 model of the statement refactorings. *)
 From Coq Require Import QArith List Bool PArith Arith Lia.
 From PV Require Import Base.PyData Base.Expr Base.Interp Base.Stmts C07.Model.
+From PV Require C10.Model C10.Proofs.
 Import ListNotations.
 Local Open Scope nat_scope.
 
@@ -63,6 +64,176 @@ Proof.
   - intro; subst. rewrite Pos.eqb_refl in H2. discriminate.
   - apply Pos.eqb_neq. exact H2.
 Qed.
+
+(* ================= the duplicate table of make_declarative is consistent ================= *)
+Fixpoint occ (s : id) (l : list stm) (i : nat) : list nat :=
+  match l with
+  | [] => []
+  | SAssign x _ :: tl => if Pos.eqb x s then i :: occ s tl (S i) else occ s tl (S i)
+  | SOde _ _ :: tl => occ s tl (S i)
+  end.
+
+Lemma occ_ge s : forall l i j, In j (occ s l i) -> i <= j.
+Proof.
+  induction l as [|st l IH]; intros i j H; cbn [occ] in H; [destruct H|].
+  destruct st as [x e|a b].
+  - destruct (Pos.eqb x s).
+    + destruct H as [<-|H]; [lia|]. apply IH in H. lia.
+    + apply IH in H. lia.
+  - apply IH in H. lia.
+Qed.
+
+Lemma alookup_aappend s i d x :
+  alookup (aappend s i d) x =
+  if Pos.eqb x s then Some (match alookup d s with Some v => v ++ [i] | None => [i] end) else alookup d x.
+Proof.
+  induction d as [|[k v] d IH]; cbn [aappend alookup].
+  - destruct (Pos.eqb_spec s x), (Pos.eqb_spec x s); subst; try congruence; reflexivity.
+  - destruct (Pos.eqb_spec k s); cbn [alookup].
+    + subst k.
+      destruct (Pos.eqb_spec s x), (Pos.eqb_spec x s); subst; try congruence; reflexivity.
+    + rewrite IH. destruct (Pos.eqb_spec k x), (Pos.eqb_spec x s); subst; try congruence; try reflexivity.
+Qed.
+
+Definition tail_entry (o : list nat) : option (list nat) :=
+  match o with [] => None | [_] => None | _ :: o' => Some o' end.
+
+Lemma dup_scan_spec : forall l i assigned dups,
+  (forall s, memp s assigned = false -> alookup dups s = None) ->
+  forall s, alookup (dup_scan l i assigned dups) s =
+    if memp s assigned then
+      match alookup dups s with
+      | Some v => Some (v ++ occ s l i)
+      | None => match occ s l i with [] => None | o => Some o end
+      end
+    else tail_entry (occ s l i).
+Proof.
+  induction l as [|st l IH]; intros i assigned dups Hpre s; cbn [dup_scan occ].
+  - destruct (memp s assigned) eqn:E; [|cbn; apply Hpre; exact E].
+    destruct (alookup dups s); [rewrite app_nil_r|]; reflexivity.
+  - destruct st as [x e|a b]; [|apply IH; exact Hpre].
+    destruct (memp x assigned) eqn:Ex.
+    + rewrite IH.
+      2:{ intros s' Hs'. rewrite alookup_aappend. destruct (Pos.eqb s' x) eqn:E; [|apply Hpre; exact Hs'].
+          apply Pos.eqb_eq in E. subst. congruence. }
+      rewrite alookup_aappend. destruct (Pos.eqb x s) eqn:E.
+      * apply Pos.eqb_eq in E. subst x. rewrite Ex, Pos.eqb_refl.
+        destruct (alookup dups s); rewrite <- ?app_assoc; reflexivity.
+      * rewrite (Pos.eqb_sym s x), E. reflexivity.
+    + rewrite IH.
+      2:{ intros s' Hs'. apply Hpre. cbn [memp existsb] in Hs'. apply orb_false_iff in Hs'. apply Hs'. }
+      cbn [memp existsb]. fold (memp s assigned). destruct (Pos.eqb x s) eqn:E.
+      * apply Pos.eqb_eq in E. subst x. rewrite Pos.eqb_refl. cbn [orb]. rewrite Ex.
+        rewrite (Hpre s Ex). cbn [tail_entry]. destruct (occ s l (S i)); reflexivity.
+      * rewrite (Pos.eqb_sym s x), E. cbn [orb]. reflexivity.
+Qed.
+
+Lemma dup_table_spec l s : alookup (dup_table l) s = tail_entry (occ s l 0).
+Proof. unfold dup_table. rewrite dup_scan_spec; [reflexivity | reflexivity]. Qed.
+
+Lemma alookup_areplace_eq s v d : alookup d s <> None -> alookup (areplace s v d) s = Some v.
+Proof.
+  induction d as [|[k w] d IH]; cbn [areplace alookup]; [congruence|].
+  destruct (Pos.eqb k s) eqn:E; cbn [alookup]; rewrite E; [reflexivity | exact IH].
+Qed.
+
+Lemma alookup_areplace_neq s v d x : x <> s -> alookup (areplace s v d) x = alookup d x.
+Proof.
+  intros Hne. induction d as [|[k w] d IH]; cbn [areplace alookup]; [reflexivity|].
+  destruct (Pos.eqb k s) eqn:E; cbn [alookup].
+  - apply Pos.eqb_eq in E. subst k. destruct (Pos.eqb s x) eqn:E2; [|reflexivity].
+    apply Pos.eqb_eq in E2. congruence.
+  - rewrite IH. reflexivity.
+Qed.
+
+(* the state of the second loop at index i, [l] the remaining statements, [seen] the symbols assigned so far *)
+Definition J (seen : list id) (i : nat) (l : list stm) (cur : list (id * expr)) (dups : list (id * list nat)) : Prop :=
+  forall s,
+    (memp s seen = true ->
+       (alookup dups s = None /\ alookup cur s = None /\ occ s l i = []) \/
+       (alookup dups s = Some (occ s l i) /\ (alookup cur s <> None <-> occ s l i <> []))) /\
+    (memp s seen = false -> alookup cur s = None /\ alookup dups s = tail_entry (occ s l i)).
+
+Lemma memn_false_ge i o : (forall j, In j o -> S i <= j) -> memn i o = false.
+Proof.
+  intros H. destruct (memn i o) eqn:E; [|reflexivity]. apply memn_In in E. apply H in E. lia.
+Qed.
+
+Definition assigned_by (st : stm) : list id := match st with SAssign x _ => [x] | SOde _ _ => [] end.
+
+Lemma J_step fx seen i st l cur dups cur' dups' out :
+  J seen i (st :: l) cur dups ->
+  decl_step_gen fx cur dups i st = (cur', dups', out) ->
+  J (assigned_by st ++ seen) (S i) l cur' dups'.
+Proof.
+  intros HJ Hstep. destruct st as [x e|a b].
+  2:{ cbn [decl_step_gen] in Hstep. injection Hstep as <- <- _. cbn [assigned_by app].
+      intros s. specialize (HJ s). cbn [occ] in HJ. exact HJ. }
+  cbn [decl_step_gen] in Hstep. cbn [assigned_by app]. destruct (classify dups i x) as [kd d'] eqn:Ec.
+  assert (Hocc : forall s, s <> x -> occ s (SAssign x e :: l) i = occ s l (S i)).
+  { intros s Hne. cbn [occ]. destruct (Pos.eqb x s) eqn:E; [|reflexivity]. apply Pos.eqb_eq in E. congruence. }
+  assert (Hoccx : occ x (SAssign x e :: l) i = i :: occ x l (S i)) by (cbn [occ]; rewrite Pos.eqb_refl; reflexivity).
+  assert (Hseen : forall s, s <> x -> memp s (x :: seen) = memp s seen).
+  { intros s Hne. cbn [memp existsb]. apply Pos.eqb_neq in Hne. rewrite Hne. reflexivity. }
+  unfold classify in Ec. destruct (alookup dups x) as [idx|] eqn:El.
+  + destruct (memp x seen) eqn:Esx.
+    * (* a later occurrence *)
+      destruct (proj1 (HJ x) Esx) as [[Hc _]|[Hd Hcur]]; [congruence|].
+      rewrite Hoccx in Hd. rewrite El in Hd. injection Hd as ->.
+      cbn [memn existsb] in Ec. rewrite Nat.eqb_refl in Ec. cbn [orb tl] in Ec.
+      assert (Hd' : alookup (areplace x (occ x l (S i)) dups) x = Some (occ x l (S i)))
+        by (apply alookup_areplace_eq; congruence).
+      destruct (occ x l (S i)) as [|j o] eqn:Eo; injection Ec as <- <-; injection Hstep as <- <- _.
+      -- intros s. destruct (Pos.eq_dec s x) as [->|Hne].
+         ++ split; [|cbn [memp existsb]; rewrite Pos.eqb_refl; discriminate]. intros _. right. rewrite Eo. split; [exact Hd'|].
+            rewrite alookup_aremove, Pos.eqb_refl. split; congruence.
+         ++ rewrite (Hseen s Hne), <- (Hocc s Hne), alookup_aremove, alookup_areplace_neq by exact Hne.
+            apply Pos.eqb_neq in Hne. rewrite Hne. apply HJ.
+      -- intros s. destruct (Pos.eq_dec s x) as [->|Hne].
+         ++ split; [|cbn [memp existsb]; rewrite Pos.eqb_refl; discriminate]. intros _. right. rewrite Eo. split; [exact Hd'|].
+            rewrite alookup_aset, Pos.eqb_refl. split; congruence.
+         ++ rewrite (Hseen s Hne), <- (Hocc s Hne), alookup_aset, alookup_areplace_neq by exact Hne.
+            apply Pos.eqb_neq in Hne. rewrite Hne. apply HJ.
+    * (* the first occurrence of a duplicated symbol *)
+      destruct (proj2 (HJ x) Esx) as [Hc Hd]. rewrite Hoccx, El in Hd. cbn [tail_entry] in Hd.
+      destruct (occ x l (S i)) as [|j o] eqn:Eo; [discriminate|]. injection Hd as ->.
+      rewrite memn_false_ge in Ec.
+      2:{ intros k Hk. rewrite <- Eo in Hk. apply occ_ge in Hk. exact Hk. }
+      injection Ec as <- <-. injection Hstep as <- <- _.
+      intros s. destruct (Pos.eq_dec s x) as [->|Hne].
+      -- split; [|cbn [memp existsb]; rewrite Pos.eqb_refl; discriminate]. intros _. right. rewrite Eo. split; [exact El|].
+         rewrite alookup_aset, Pos.eqb_refl. split; congruence.
+      -- rewrite (Hseen s Hne), <- (Hocc s Hne), alookup_aset.
+         apply Pos.eqb_neq in Hne. rewrite Hne. apply HJ.
+  + (* not duplicated *)
+    injection Ec as <- <-. injection Hstep as <- <- _. intros s. destruct (Pos.eq_dec s x) as [->|Hne].
+    * split; [|cbn [memp existsb]; rewrite Pos.eqb_refl; discriminate]. intros _. left. split; [exact El|].
+      destruct (memp x seen) eqn:Esx.
+      -- destruct (proj1 (HJ x) Esx) as [[_ [_ Hc]]|[Hd _]]; [rewrite Hoccx in Hc; discriminate | congruence].
+      -- destruct (proj2 (HJ x) Esx) as [Hc Hd]. split; [exact Hc|].
+         rewrite Hoccx, El in Hd. cbn [tail_entry] in Hd. destruct (occ x l (S i)); [reflexivity | discriminate].
+    * rewrite (Hseen s Hne), <- (Hocc s Hne). apply HJ.
+Qed.
+
+Lemma decl_final_J fx : forall l seen i cur dups, J seen i l cur dups -> decl_final_gen fx l i cur dups = [].
+Proof.
+  induction l as [|st l IH]; intros seen i cur dups HJ.
+  - cbn [decl_final_gen]. destruct cur as [|[k v] cur]; [reflexivity|]. exfalso.
+    destruct (HJ k) as [H1 H2]. cbn [occ] in *.
+    assert (Hk : alookup ((k, v) :: cur) k = Some v) by (cbn [alookup]; rewrite Pos.eqb_refl; reflexivity).
+    destruct (memp k seen) eqn:E.
+    + destruct (H1 eq_refl) as [[_ [Hc _]]|[_ Hc]]; [congruence|].
+      assert (Hne : alookup ((k, v) :: cur) k <> None) by congruence. exact (proj1 Hc Hne eq_refl).
+    + destruct (H2 eq_refl) as [Hc _]. congruence.
+  - cbn [decl_final_gen]. destruct (decl_step_gen fx cur dups i st) as [[cur' dups'] out] eqn:Es.
+    apply (IH (assigned_by st ++ seen)). eapply J_step; eauto.
+Qed.
+
+Lemma J_init l : J [] 0 l [] (dup_table l).
+Proof. intros s. split; [discriminate|]. intros _. split; [reflexivity|]. apply dup_table_spec. Qed.
+
+Lemma decl_final_empty fx l : decl_final_gen fx l 0 [] (dup_table l) = [].
+Proof. apply (decl_final_J fx l []). apply J_init. Qed.
 
 (* ---------- execution ---------- *)
 Section Sem.
@@ -220,30 +391,38 @@ Section Sem.
     - intros H. injection H as <- <-. split; tauto.
   Qed.
 
-  Lemma declarative_lemma : forall l i cur dups P ro rn,
-    decl_guard l i cur dups P = true ->
+  Lemma declarative_lemma fx : forall l i cur dups P ro rn,
+    decl_guard_gen fx l i cur dups P = true ->
     Inv cur P ro rn ->
     (forall k, alookup dups k = None -> alookup cur k = None) ->
-    forall x, sexec rn (decl_walk l i cur dups) x = sexec ro l x.
+    (forall k, In k P -> alookup cur k <> None) ->
+    forall x, alookup (decl_final_gen fx l i cur dups) x = None ->
+      sexec rn (decl_walk_gen fx l i cur dups) x = sexec ro l x.
   Proof.
-    induction l as [|st l IH]; intros i cur dups P ro rn Hg HI HT x.
-    - cbn [decl_guard] in Hg. destruct cur; [|discriminate]. destruct P; [|discriminate].
-      cbn [decl_walk Model.sexec]. symmetry. apply HI. intros [].
-    - cbn [decl_guard decl_walk Model.sexec] in *.
+    induction l as [|st l IH]; intros i cur dups P ro rn Hg HI HT HP x Hx.
+    - cbn [decl_walk_gen decl_final_gen Model.sexec] in *. symmetry. rewrite HI.
+      + unfold upd_map. rewrite Hx. reflexivity.
+      + intro Hin. apply (HP x Hin). exact Hx.
+    - cbn [decl_guard_gen decl_walk_gen decl_final_gen Model.sexec] in *.
       destruct st as [s e|amts args].
-      + cbn [decl_step] in *. destruct (classify dups i s) as [kd d'] eqn:Ec.
+      + cbn [decl_step_gen] in *. destruct (classify dups i s) as [kd d'] eqn:Ec.
         destruct (classify_table _ _ _ _ _ Ec) as [Ht Hk]. cbn [fst] in Hg.
-        assert (HT' : forall cur', (forall k, k <> s -> alookup cur' k = None <-> alookup cur k = None) ->
+        assert (HT' : forall cur' : list (id * expr), (forall k, k <> s -> alookup cur' k = None <-> alookup cur k = None) ->
                                    (kd = KPlain -> alookup cur' s = None) ->
                                    forall k, alookup d' k = None -> alookup cur' k = None).
         { intros cur' H1 H2 k Hkk. destruct (Pos.eq_dec k s) as [->|Hne].
           - apply H2. apply Hk. apply Ht. exact Hkk.
           - apply H1; [exact Hne|]. apply HT. apply Ht. exact Hkk. }
+        assert (HPpa : forall (cur' : list (id * expr)) P0,
+                   (forall k, In k P0 -> alookup cur' k <> None) ->
+                   forall k, In k (poison_after cur' [s] P0) -> alookup cur' k <> None).
+        { intros cur' P0 H0 k Hin. apply In_poison_after in Hin. destruct Hin as [Hin|[t [Hin _]]]; [auto|].
+          intro Hn. apply alookup_None_keys in Hn. apply Hn. apply in_map_iff. exists (k, t). auto. }
         destruct kd.
         * (* KPlain *)
           apply andb_true_iff in Hg. destruct Hg as [Hu Hg].
           assert (Hs : alookup cur s = None) by (apply HT, Hk; reflexivity).
-          cbn [Model.sexec]. eapply IH; [exact Hg| |apply HT'; [tauto | intros _; exact Hs]].
+          cbn [Model.sexec]. eapply IH; [exact Hg| |apply HT'; [tauto | intros _; exact Hs]|apply HPpa; exact HP|exact Hx].
           cbn [Model.sexec1]. rewrite (inv_use cur P ro rn e HI Hu).
           eapply (inv_emit cur cur P P [s]); [exact HI|..].
           -- intros y [<-|[]]. unfold upd. rewrite Pos.eqb_refl. reflexivity.
@@ -253,23 +432,29 @@ Section Sem.
           -- reflexivity.
           -- auto.
         * (* KFirst *)
-          apply andb_true_iff in Hg. destruct Hg as [Hg Hg2]. apply andb_true_iff in Hg. destruct Hg as [Hu Hk2].
-          eapply IH; [exact Hg2| |].
-          -- cbn [Model.sexec1]. apply inv_store; [exact HI|].
-             apply eval_ext. intros y Hy. rewrite HI by (rewrite use_ok_spec in Hu; auto).
-             unfold upd_map. apply negb_true_iff in Hk2. rewrite interp_empty in Hk2.
-             specialize (Hk2 y Hy). apply alookup_None_keys in Hk2. rewrite Hk2. reflexivity.
+          apply andb_true_iff in Hg. destruct Hg as [Hk2 Hg2].
+          eapply IH; [exact Hg2| | | |exact Hx].
+          -- cbn [Model.sexec1]. apply inv_store; [exact HI|]. destruct fx.
+             ++ apply (inv_use cur P); assumption.
+             ++ apply negb_true_iff in Hk2. rewrite interp_empty in Hk2.
+                apply eval_ext. intros y Hy. specialize (Hk2 y Hy). apply alookup_None_keys in Hk2.
+                rewrite HI by (intro Hin; apply (HP y Hin); exact Hk2).
+                unfold upd_map. rewrite Hk2. reflexivity.
           -- apply HT'; [|intros Hc; discriminate].
              intros k Hne. rewrite alookup_aset. apply Pos.eqb_neq in Hne. rewrite Hne. tauto.
+          -- intros k Hin. apply In_removep in Hin. destruct Hin as [Hin Hne]. rewrite alookup_aset.
+             apply Pos.eqb_neq in Hne. rewrite Hne. apply HP. exact Hin.
         * (* KMiddle *)
           apply andb_true_iff in Hg. destruct Hg as [Hu Hg2].
-          eapply IH; [exact Hg2| |].
+          eapply IH; [exact Hg2| | | |exact Hx].
           -- cbn [Model.sexec1]. apply inv_store; [exact HI|]. apply (inv_use cur P); assumption.
           -- apply HT'; [|intros Hc; discriminate].
              intros k Hne. rewrite alookup_aset. apply Pos.eqb_neq in Hne. rewrite Hne. tauto.
+          -- intros k Hin. apply In_removep in Hin. destruct Hin as [Hin Hne]. rewrite alookup_aset.
+             apply Pos.eqb_neq in Hne. rewrite Hne. apply HP. exact Hin.
         * (* KLast *)
           apply andb_true_iff in Hg. destruct Hg as [Hu Hg2].
-          cbn [Model.sexec]. eapply IH; [exact Hg2| |].
+          cbn [Model.sexec]. eapply IH; [exact Hg2| | | |exact Hx].
           -- cbn [Model.sexec1]. rewrite (inv_use cur P ro rn e HI Hu).
              eapply (inv_emit cur (aremove s cur) P (removep s P) [s]); [exact HI|..].
              ++ intros y [<-|[]]. unfold upd. rewrite Pos.eqb_refl. reflexivity.
@@ -281,26 +466,41 @@ Section Sem.
                 rewrite E. reflexivity.
              ++ intros y Hy Hr Hp. apply Hr. apply In_removep. split; [exact Hp|]. intro; subst. apply Hy. left. reflexivity.
           -- intros k Hkk. rewrite alookup_aremove. destruct (Pos.eqb k s); [reflexivity|]. apply HT, Ht, Hkk.
+          -- apply HPpa. intros k Hin. apply In_removep in Hin. destruct Hin as [Hin Hne]. rewrite alookup_aremove.
+             apply Pos.eqb_neq in Hne. rewrite Hne. apply HP. exact Hin.
       + (* compartmental system *)
-        cbn [decl_step] in *.
+        cbn [decl_step_gen] in *.
         apply andb_true_iff in Hg. destruct Hg as [Hg Hg2]. apply andb_true_iff in Hg. destruct Hg as [Hu Hk].
         apply negb_true_iff in Hk. rewrite interp_empty in Hk.
-        cbn [Model.sexec]. eapply IH; [exact Hg2| |exact HT].
-        cbn [Model.sexec1]. rewrite (inv_use_args cur P ro rn args HI Hu).
-        eapply (inv_emit cur cur P P amts); [exact HI|..].
-        * intros y Hy. unfold upd_list. apply memp_In in Hy. rewrite Hy. reflexivity.
-        * intros y Hy. unfold upd_list. apply not_memp in Hy. rewrite Hy. auto.
-        * intros y Hy. apply alookup_None_keys. apply Hk. exact Hy.
-        * reflexivity.
-        * auto.
+        cbn [Model.sexec]. eapply IH; [exact Hg2| |exact HT| |exact Hx].
+        * cbn [Model.sexec1]. rewrite (inv_use_args cur P ro rn args HI Hu).
+          eapply (inv_emit cur cur P P amts); [exact HI|..].
+          -- intros y Hy. unfold upd_list. apply memp_In in Hy. rewrite Hy. reflexivity.
+          -- intros y Hy. unfold upd_list. apply not_memp in Hy. rewrite Hy. auto.
+          -- intros y Hy. apply alookup_None_keys. apply Hk. exact Hy.
+          -- reflexivity.
+          -- auto.
+        * intros k Hin. apply In_poison_after in Hin. destruct Hin as [Hin|[t [Hin _]]]; [apply HP; exact Hin|].
+          intro Hn. apply alookup_None_keys in Hn. apply Hn. apply in_map_iff. exists (k, t). auto.
+  Qed.
+
+  Lemma declarative_gen_preserves fx l :
+    decl_guard_gen fx l 0 [] (dup_table l) [] = true ->
+    forall r x, sexec r (declarative_gen fx l) x = sexec r l x.
+  Proof.
+    intros Hg r x. unfold declarative_gen. eapply declarative_lemma; [exact Hg| |reflexivity| |].
+    - intros y _. reflexivity.
+    - intros k [].
+    - rewrite decl_final_empty. reflexivity.
   Qed.
 
   Lemma declarative_preserves_lemma l :
     g_no_stale_capture l = true -> forall r x, sexec r (declarative l) x = sexec r l x.
-  Proof.
-    intros Hg r x. unfold declarative. eapply declarative_lemma; [exact Hg| |reflexivity].
-    intros y _. reflexivity.
-  Qed.
+  Proof. apply declarative_gen_preserves. Qed.
+
+  Lemma declarative_patched_preserves_lemma l :
+    g_no_stale_capture_patched l = true -> forall r x, sexec r (declarative_patched l) x = sexec r l x.
+  Proof. apply declarative_gen_preserves. Qed.
 
   (* ================= pending substitutions: the inlining loop and constant substitution ========== *)
   Definition InvS (cur : list (id * expr)) (ro rn : env) : Prop := forall x, ro x = upd_map rn fi cur x.
@@ -423,3 +623,519 @@ Section Sem.
       intros y Hy Hkk. apply (Hk y Hkk). unfold all_sdefs. cbn [flat_map]. apply in_or_app. left. exact Hy.
   Qed.
 End Sem.
+
+(* ================= rename_symbols ================= *)
+Section Rename.
+  Variable fi : finterp.
+  Variable ode : id -> list (option Q) -> option Q.
+  Variable d : list (id * id).
+
+  Lemma alookup_ren_map x : alookup (ren_map d) x = option_map Sym (alookup d x).
+  Proof.
+    unfold ren_map. induction d as [|[k v] m IH]; cbn [map alookup fst snd]; [reflexivity|].
+    destruct (Pos.eqb k x); [reflexivity | exact IH].
+  Qed.
+
+  Lemma upd_map_ren r x : upd_map r fi (ren_map d) x = r (ren d x).
+  Proof. unfold upd_map, ren. rewrite alookup_ren_map. destruct (alookup d x); reflexivity. Qed.
+
+  Lemma ren_of_ren_map s : ren_of (ren_map d) s = ren d s.
+  Proof. unfold ren_of, ren. rewrite alookup_ren_map. destruct (alookup d s); reflexivity. Qed.
+
+  Lemma ren_nokey x : ~ In x (akeys d) -> ren d x = x.
+  Proof. intros H. apply alookup_None_keys in H. unfold ren. rewrite H. reflexivity. Qed.
+
+  Definition amounts_unrenamed (l : list stm) : bool :=
+    forallb (fun st => match st with
+                       | SOde amts _ => negb (interp_nonempty amts (akeys d))
+                       | _ => true end) l.
+
+  Lemma rename_lemma (S : list id) :
+    (forall x y, In x S -> In y S -> ren d x = ren d y -> x = y) ->
+    forall l r r',
+      (forall x, In x (all_ssyms l) -> In x S) ->
+      amounts_unrenamed l = true ->
+      (forall x, In x S -> r' (ren d x) = r x) ->
+      forall x, In x S -> sexec fi ode r' (rename d l) (ren d x) = sexec fi ode r l x.
+  Proof.
+    intros Hinj. induction l as [|st l IH]; intros r r' Hsub Ham Hr x Hx; [apply Hr; exact Hx|].
+    cbn [rename map Model.sexec]. unfold amounts_unrenamed in Ham. cbn [forallb] in Ham.
+    apply andb_true_iff in Ham. destruct Ham as [Ha Ham].
+    assert (Hsub' : forall y, In y (all_ssyms l) -> In y S).
+    { intros y Hy. apply Hsub. unfold all_ssyms. cbn [flat_map]. apply in_or_app. right. exact Hy. }
+    assert (Hst : forall y, In y (ssyms st) -> In y S).
+    { intros y Hy. apply Hsub. unfold all_ssyms. cbn [flat_map]. apply in_or_app. left. exact Hy. }
+    assert (Hev : forall e, (forall y, In y (free_syms e) -> In y S) ->
+                            eval r' fi (subs_map (ren_map d) e) = eval r fi e).
+    { intros e He. rewrite subs_map_eval. apply eval_ext. intros y Hy. rewrite upd_map_ren. apply Hr, He, Hy. }
+    apply (IH _ _ Hsub' Ham); [|exact Hx]. clear x Hx. intros x Hx.
+    destruct st as [s e|amts args]; cbn [subs_stm Model.sexec1].
+    - rewrite ren_of_ren_map. unfold upd.
+      assert (Hs : In s S) by (apply Hst; left; reflexivity).
+      rewrite Hev by (intros y Hy; apply Hst; cbn [ssyms sdefs srhs]; right; exact Hy).
+      destruct (Pos.eqb x s) eqn:E.
+      + apply Pos.eqb_eq in E. subst. rewrite Pos.eqb_refl. reflexivity.
+      + assert (E' : Pos.eqb (ren d x) (ren d s) = false).
+        { apply Pos.eqb_neq. intro Heq. apply Hinj in Heq; [|exact Hx|exact Hs]. subst.
+          rewrite Pos.eqb_refl in E. discriminate. }
+        rewrite E'. apply Hr. exact Hx.
+    - unfold upd_list. apply negb_true_iff in Ha. rewrite interp_empty in Ha.
+      assert (Hamt : forall a, In a amts -> ren d a = a) by (intros a Hin; apply ren_nokey; apply Ha; exact Hin).
+      assert (Hargs : map (fun e => eval r' fi e) (map (subs_map (ren_map d)) args) = map (fun e => eval r fi e) args).
+      { rewrite map_map. apply map_ext_in. intros e He. apply Hev. intros y Hy. apply Hst.
+        cbn [ssyms sdefs srhs]. apply in_or_app. right. apply in_flat_map. eauto. }
+      destruct (memp x amts) eqn:E.
+      + apply memp_In in E. rewrite (Hamt x E). apply memp_In in E. rewrite E, Hargs. reflexivity.
+      + assert (E' : memp (ren d x) amts = false).
+        { apply not_memp. intro Hin. apply not_memp in E. apply E.
+          assert (HaS : In (ren d x) S) by (apply Hst; cbn [ssyms sdefs]; apply in_or_app; left; exact Hin).
+          assert (Heq : ren d (ren d x) = ren d x) by (apply Hamt; exact Hin).
+          apply Hinj in Heq; [|exact HaS|exact Hx]. rewrite <- Heq. exact Hin. }
+        rewrite E'. apply Hr. exact Hx.
+  Qed.
+
+  Lemma nodup_p_map_inj (f : id -> id) : forall N,
+    nodup_p (map f N) = true -> forall x y, In x N -> In y N -> f x = f y -> x = y.
+  Proof.
+    induction N as [|a N IH]; cbn [map nodup_p]; intros H x y Hx Hy Heq; [destruct Hx|].
+    apply andb_true_iff in H. destruct H as [Hn H]. apply negb_true_iff, not_memp in Hn.
+    destruct Hx as [<-|Hx], Hy as [<-|Hy]; auto.
+    - exfalso. apply Hn. rewrite Heq. apply in_map. exact Hy.
+    - exfalso. apply Hn. rewrite <- Heq. apply in_map. exact Hx.
+  Qed.
+
+  Lemma rename_preserves_lemma extra l :
+    g_rename_ok d extra l = true ->
+    forall r r', (forall x, In x (all_ssyms l ++ extra) -> r' (ren d x) = r x) ->
+    forall x, In x (all_ssyms l ++ extra) ->
+      sexec fi ode r' (rename d l) (ren d x) = sexec fi ode r l x.
+  Proof.
+    unfold g_rename_ok. intros Hg r r' Hr x Hx. apply andb_true_iff in Hg. destruct Hg as [Hn Ha].
+    apply (rename_lemma (all_ssyms l ++ extra)); auto.
+    - intros a b Ha' Hb'. apply (nodup_p_map_inj (ren d) _ Hn); apply In_normp; assumption.
+    - intros y Hy. apply in_or_app. left. exact Hy.
+  Qed.
+End Rename.
+
+(* ================= replace_fixed_thetas / replace_non_random_rvs / cleanup_model ================= *)
+Section Cleanup.
+  Variable fi : finterp.
+  Variable ode : id -> list (option Q) -> option Q.
+
+  Lemma fixed_assigns_id : forall fx r,
+    (forall th q, In (th, q) fx -> r th = Some q) ->
+    forall x, sexec fi ode r (fixed_assigns fx) x = r x.
+  Proof.
+    induction fx as [|[th q] fx IH]; intros r H x; [reflexivity|].
+    cbn [fixed_assigns map Model.sexec fst snd]. fold (fixed_assigns fx).
+    assert (Hpt : forall y, sexec1 fi ode r (SAssign th (Num q)) y = r y).
+    { intros y. cbn [Model.sexec1 eval]. unfold upd. destruct (Pos.eqb y th) eqn:E; [|reflexivity].
+      apply Pos.eqb_eq in E. subst. symmetry. apply H. left. reflexivity. }
+    rewrite IH.
+    - apply Hpt.
+    - intros th' q' Hin. rewrite Hpt. apply H. right. exact Hin.
+  Qed.
+
+  Lemma replace_fixed_lemma fx l r :
+    (forall th q, In (th, q) fx -> r th = Some q) ->
+    forall x, sexec fi ode r (replace_fixed fx l) x = sexec fi ode r l x.
+  Proof.
+    intros H x. unfold replace_fixed. rewrite sexec_app. apply sexec_ext. apply fixed_assigns_id. exact H.
+  Qed.
+
+  Lemma sdefs_subs_stm m st : (forall x, In x (sdefs st) -> alookup m x = None) -> sdefs (subs_stm m st) = sdefs st.
+  Proof.
+    destruct st as [s e|a b]; cbn [subs_stm sdefs]; [|reflexivity]. intros H.
+    rewrite ren_of_nokey; [reflexivity | apply H; left; reflexivity].
+  Qed.
+
+  Lemma all_sdefs_subs m l :
+    interp_nonempty (akeys m) (all_sdefs l) = false -> all_sdefs (map (subs_stm m) l) = all_sdefs l.
+  Proof.
+    rewrite interp_empty. induction l as [|st l IH]; intros H; [reflexivity|].
+    unfold all_sdefs in *. cbn [map flat_map] in *. rewrite IH.
+    - rewrite sdefs_subs_stm; [reflexivity|]. intros x Hx. apply alookup_None_keys. intro Hk.
+      apply (H x Hk). apply in_or_app. left. exact Hx.
+    - intros x Hk Hd. apply (H x Hk). apply in_or_app. right. exact Hd.
+  Qed.
+
+  (* substituting constants for symbols that already have these values changes nothing *)
+  Lemma consts_preserves_lemma m l r :
+    g_consts_ok m l = true ->
+    (forall k t, In (k, t) m -> eval r fi t = r k) ->
+    forall x, sexec fi ode r (map (subs_stm m) l) x = sexec fi ode r l x.
+  Proof.
+    intros Hg Hr x.
+    assert (HI : InvS fi m r r).
+    { intros y. unfold upd_map. destruct (alookup m y) as [t|] eqn:E; [|reflexivity].
+      symmetry. apply Hr. apply alookup_In. exact E. }
+    pose proof (consts_lemma fi ode m l r r Hg HI x) as H. rewrite H. unfold upd_map.
+    destruct (alookup m x) as [t|] eqn:E; [|reflexivity].
+    unfold g_consts_ok in Hg. apply andb_true_iff in Hg. destruct Hg as [Hk Hc]. apply negb_true_iff in Hk.
+    assert (Hx : ~ In x (all_sdefs l)).
+    { rewrite interp_empty in Hk. apply Hk. apply alookup_In in E. apply in_map_iff. exists (x, t). auto. }
+    rewrite sexec_other by (rewrite all_sdefs_subs; assumption).
+    rewrite <- (Hr x t (alookup_In _ _ _ E)).
+    apply eval_ext. intros y Hy. exfalso.
+    assert (Ht : targets m = []) by (apply targets_closed; exact Hc).
+    assert (In y (targets m)) by (apply In_targets; exists x, t; split; [apply alookup_In; exact E | exact Hy]).
+    rewrite Ht in H0. destruct H0.
+  Qed.
+
+  Lemma zero_map_values fixed dists k t : In (k, t) (zero_map fixed dists) -> t = Num 0.
+  Proof.
+    unfold zero_map. rewrite in_flat_map. intros [dd [_ H]]. apply in_map_iff in H.
+    destruct H as [y [H _]]. injection H as _ <-. reflexivity.
+  Qed.
+
+  Definition g_cleanup (fixed : list (id * Q)) (dists : list dist) (l : list stm) : bool :=
+    g_no_stale_capture l && g_inline_ok (declarative l)
+    && g_consts_ok (zero_map fixed dists) (inline (declarative l)).
+
+  Lemma cleanup_preserves_lemma fixed dists l :
+    g_cleanup fixed dists l = true ->
+    forall r,
+      (forall th q, In (th, q) fixed -> r th = Some q) ->
+      (forall k, In k (akeys (zero_map fixed dists)) -> r k = Some 0%Q) ->
+      forall x, ~ In x (inlined (declarative l)) ->
+        sexec fi ode r (cleanup_stmts fixed dists l) x = sexec fi ode r l x.
+  Proof.
+    unfold g_cleanup. intros Hg r Hfix Hzero x Hx.
+    apply andb_true_iff in Hg. destruct Hg as [Hg Hc]. apply andb_true_iff in Hg. destruct Hg as [Hd Hi].
+    unfold cleanup_stmts. rewrite replace_fixed_lemma.
+    2:{ intros th q Hin. apply filter_In in Hin. apply Hfix. tauto. }
+    unfold replace_non_random. rewrite consts_preserves_lemma; [|exact Hc|].
+    2:{ intros k t Hin. rewrite (zero_map_values _ _ _ _ Hin). cbn [eval]. symmetry. apply Hzero.
+        apply in_map_iff. exists (k, t). auto. }
+    rewrite inline_preserves_lemma by assumption.
+    apply declarative_preserves_lemma. exact Hd.
+  Qed.
+End Cleanup.
+
+(* ================= remove_unused_parameters_and_rvs ================= *)
+Section Unused.
+  Variable fi : finterp.
+  Variable ode : id -> list (option Q) -> option Q.
+
+  (* runs from environments that agree on every symbol of the program agree on every symbol of it *)
+  Lemma sexec_coincide : forall l (S : list id) r r',
+    (forall x, In x (all_ssyms l) -> In x S) ->
+    (forall x, In x S -> r x = r' x) ->
+    forall x, In x S -> sexec fi ode r l x = sexec fi ode r' l x.
+  Proof.
+    induction l as [|st l IH]; intros S r r' Hsub Hag x Hx; [apply Hag; exact Hx|].
+    cbn [Model.sexec]. apply (IH S); [| |exact Hx].
+    - intros y Hy. apply Hsub. unfold all_ssyms. cbn [flat_map]. apply in_or_app. right. exact Hy.
+    - intros y Hy. destruct (in_dec Pos.eq_dec y (sdefs st)) as [Hin|Hn].
+      + apply sexec1_defs; [|exact Hin]. intros z Hz. apply Hag, Hsub. unfold all_ssyms. cbn [flat_map].
+        apply in_or_app. left. unfold ssyms. apply in_or_app. right. exact Hz.
+      + rewrite !sexec1_other by exact Hn. apply Hag. exact Hy.
+  Qed.
+
+  (* a symbol no statement mentions does not influence any symbol of the program *)
+  Lemma unused_irrelevant l p q r :
+    ~ In p (all_ssyms l) -> forall x, In x (all_ssyms l) -> sexec fi ode (upd r p q) l x = sexec fi ode r l x.
+  Proof.
+    intros Hp x Hx. apply (sexec_coincide l (all_ssyms l)); auto.
+    intros y Hy. unfold upd. destruct (Pos.eqb y p) eqn:E; [|reflexivity].
+    apply Pos.eqb_eq in E. subst. contradiction.
+  Qed.
+End Unused.
+
+Lemma unused_params_exact symbols dists fixed params p :
+  In p (unused_new_params symbols dists fixed params) <->
+  In p params /\ (In p symbols \/ In p (flat_map rdist_syms (unused_new_dists symbols dists))
+                  \/ is_fixed_zero fixed p = true).
+Proof.
+  unfold unused_new_params. rewrite filter_In, !orb_true_iff, !memp_In. tauto.
+Qed.
+
+Lemma unused_dists_normal_used symbols dists n v :
+  In (DNormal n v) (unused_new_dists symbols dists) -> exists x, In x (n :: v) /\ In x symbols.
+Proof.
+  unfold unused_new_dists. rewrite filter_In. intros [_ H]. apply interp_nonempty_spec in H. exact H.
+Qed.
+
+(* ================= get_observation_expression ================= *)
+Section ObsExpr.
+  Variable fi : finterp.
+  Variable ode : id -> list (option Q) -> option Q.
+
+  Definition all_assign (l : list stm) : Prop := forall st, In st l -> exists s e, st = SAssign s e.
+
+  Lemma split_first_spec s : forall l pre p e rest,
+    split_first s l pre = Some (p, e, rest) -> all_assign pre ->
+    rev pre ++ l = rev p ++ SAssign s e :: rest /\ all_assign p.
+  Proof.
+    induction l as [|st l IH]; intros pre p e rest H Hpre; cbn [split_first] in H; [discriminate|].
+    destruct st as [x t|a b]; [|discriminate].
+    destruct (Pos.eqb x s) eqn:E.
+    - apply Pos.eqb_eq in E. subst. injection H as <- <- <-. split; [reflexivity | exact Hpre].
+    - apply IH in H.
+      + cbn [rev] in H. rewrite <- app_assoc in H. exact H.
+      + intros st [<-|Hin]; [eauto | apply Hpre; exact Hin].
+  Qed.
+
+  Lemma fold_subs1_eval : forall p e r,
+    all_assign p -> eval r fi (fold_left subs1 p e) = eval (sexec fi ode r (rev p)) fi e.
+  Proof.
+    induction p as [|st p IH]; intros e r Hp; [reflexivity|].
+    cbn [fold_left rev]. rewrite sexec_app. cbn [Model.sexec].
+    destruct (Hp st (or_introl eq_refl)) as [s [t ->]]. cbn [subs1 Model.sexec1].
+    rewrite IH by (intros st Hin; apply Hp; right; exact Hin).
+    apply subs_eval.
+  Qed.
+
+  Lemma subs_self_notin s t e : ~ In s (free_syms e) -> subs s t e = e.
+  Proof. apply (proj1 (PV.C10.Proofs.subs_notin s t)). Qed.
+
+  Lemma obs_expr_sound_lemma l dv y r :
+    obs_expr l dv = Some y -> g_dv_single l dv = true -> eval r fi y = sexec fi ode r l dv.
+  Proof.
+    unfold obs_expr, g_dv_single. destruct (split_first dv l []) as [[[p e] rest]|] eqn:E; [|discriminate].
+    intros H Hg. injection H as <-. apply andb_true_iff in Hg. destruct Hg as [H1 H2].
+    apply negb_true_iff, not_memp in H1. apply negb_true_iff, not_memp in H2.
+    apply split_first_spec in E; [|intros st []]. destruct E as [El Hp]. cbn [rev app] in El. subst l.
+    rewrite subs_self_notin by exact H1.
+    rewrite sexec_app. cbn [Model.sexec]. rewrite sexec_other by exact H2.
+    cbn [Model.sexec1]. unfold upd. rewrite Pos.eqb_refl. apply fold_subs1_eval. exact Hp.
+  Qed.
+
+  Lemma ipred_expr_sound_lemma l dv epss y r :
+    ipred_expr l dv epss = Some y -> g_dv_single l dv = true ->
+    eval r fi y = sexec fi ode (upd_map r fi (zeros epss)) l dv.
+  Proof.
+    unfold ipred_expr. destruct (obs_expr l dv) as [y0|] eqn:E; [|discriminate].
+    intros H Hg. injection H as <-. rewrite subs_map_eval. apply obs_expr_sound_lemma; assumption.
+  Qed.
+End ObsExpr.
+
+(* ================= cleanup_model: the parameter set ================= *)
+Lemma alookup_Some_keys {A} (m : list (id * A)) x v : alookup m x = Some v -> In x (akeys m).
+Proof. intros H. apply alookup_In in H. apply in_map_iff. exists (x, v). auto. Qed.
+
+Lemma removed_params_fixed fixed dists p : In p (removed_params fixed dists) -> In p (akeys fixed).
+Proof.
+  unfold removed_params, non_random. rewrite in_flat_map. intros [d [Hd Hp]].
+  apply filter_In in Hd. destruct Hd as [_ Hall]. rewrite forallb_forall in Hall.
+  specialize (Hall p Hp). unfold is_fixed_zero in Hall.
+  destruct (alookup fixed p) as [q|] eqn:E; [|discriminate]. eapply alookup_Some_keys. exact E.
+Qed.
+
+Lemma fixed_after_keys fixed dists p : In p (akeys (fixed_after fixed dists)) -> In p (akeys fixed).
+Proof.
+  unfold akeys, fixed_after. rewrite !in_map_iff. intros [kv [<- H]]. apply filter_In in H.
+  exists kv. tauto.
+Qed.
+
+Lemma cleanup_keeps_rv_params_lemma fixed dists params p :
+  g_fixed_are_thetas fixed dists = true ->
+  In p (flat_map d_params (kept_dists fixed dists)) -> In p params ->
+  In p (cleanup_params fixed dists params).
+Proof.
+  unfold g_fixed_are_thetas. intros Hg Hk Hp.
+  assert (Hnf : ~ In p (akeys fixed)).
+  { intro Hf. assert (Hd : In p (dangling fixed dists)) by (apply filter_In; split; [exact Hk | apply memp_In; exact Hf]).
+    destruct (dangling fixed dists); [destruct Hd | discriminate]. }
+  unfold cleanup_params. apply filter_In. split; [exact Hp|]. apply andb_true_iff. split; apply negb_true_iff, not_memp.
+  - intro H. apply Hnf. eapply removed_params_fixed. exact H.
+  - intro H. apply Hnf. eapply fixed_after_keys. exact H.
+Qed.
+
+(* thetas that are not fixed are never touched *)
+Lemma cleanup_params_exact fixed dists params p :
+  In p (cleanup_params fixed dists params) <-> In p params /\ ~ In p (removed_params fixed dists) /\
+                                               ~ In p (akeys (fixed_after fixed dists)).
+Proof.
+  unfold cleanup_params. rewrite filter_In, andb_true_iff, !negb_true_iff, !not_memp. tauto.
+Qed.
+
+(* ================= the repaired make_declarative is correct on every valid model ================= *)
+Lemma free_syms_subs_map m :
+  (forall e y, In y (free_syms (subs_map m e)) ->
+     (In y (free_syms e) /\ alookup m y = None) \/
+     (exists k t, alookup m k = Some t /\ In k (free_syms e) /\ In y (free_syms t))) /\
+  (forall c y, In y (free_symsc (subsc_map m c)) ->
+     (In y (free_symsc c) /\ alookup m y = None) \/
+     (exists k t, alookup m k = Some t /\ In k (free_symsc c) /\ In y (free_syms t))).
+Proof.
+  apply expr_cond_mut; intros; cbn [subs_map subsc_map free_syms free_symsc] in *;
+    try (exfalso; assumption);
+    repeat match goal with H : In _ (_ ++ _) |- _ => apply in_app_or in H; destruct H end;
+    try match goal with
+        | IH : forall y, In y (free_syms (subs_map m ?a)) -> _, H : In _ (free_syms (subs_map m ?a)) |- _ =>
+            destruct (IH _ H) as [[? ?]|[k [t [? [? ?]]]]];
+            [left; split; [|assumption] | right; exists k, t; split; [assumption|split; [|assumption]]];
+            repeat rewrite in_app_iff; auto 6
+        | IH : forall y, In y (free_symsc (subsc_map m ?a)) -> _, H : In _ (free_symsc (subsc_map m ?a)) |- _ =>
+            destruct (IH _ H) as [[? ?]|[k [t [? [? ?]]]]];
+            [left; split; [|assumption] | right; exists k, t; split; [assumption|split; [|assumption]]];
+            repeat rewrite in_app_iff; auto 6
+        end.
+  (* Sym *)
+  destruct (alookup m s) as [t|] eqn:E.
+  - right. exists s, t. split; [exact E|]. split; [left; reflexivity | assumption].
+  - cbn [free_syms] in H. destruct H as [<-|[]]. left. split; [left; reflexivity | exact E].
+Qed.
+
+Lemma In_aremove {A} k (m : list (id * A)) kv : In kv (aremove k m) -> In kv m.
+Proof.
+  induction m as [|[k' v] m IH]; cbn [aremove]; [tauto|].
+  destruct (Pos.eqb k' k); cbn [In]; intuition.
+Qed.
+
+Lemma poison_none (cur : list (id * expr)) D :
+  (forall k t, In (k, t) cur -> forall y, In y (free_syms t) -> ~ In y D) -> poison_after cur D [] = [].
+Proof.
+  intros H. unfold poison_after. cbn [app].
+  assert (E : filter (fun kv : id * expr => mentions (snd kv) D) cur = []).
+  { induction cur as [|[k t] cur IH]; [reflexivity|]. cbn [filter snd].
+    assert (Em : mentions t D = false).
+    { unfold mentions. apply interp_empty. intros y Hy. apply (H k t); [left; reflexivity | exact Hy]. }
+    rewrite Em. apply IH. intros k' t' Hin. apply (H k' t'). right. exact Hin. }
+  rewrite E. reflexivity.
+Qed.
+
+Lemma use_ok_nil syms : use_ok [] syms = true.
+Proof. unfold use_ok. apply negb_true_iff, interp_empty. intros ? ? []. Qed.
+
+Definition ok3 (known assigned odedefs : list id) (y : id) : bool :=
+  memp y known || memp y assigned || memp y odedefs.
+
+(* definitions of the remaining statements never hit a known symbol or an amount already defined *)
+Lemma valid_defs known : forall l A O, valid_from known l A O = true ->
+  forall y, In y (all_sdefs l) -> ~ In y known /\ ~ In y O.
+Proof.
+  induction l as [|st l IH]; intros A O Hv y Hy; [destruct Hy|].
+  unfold all_sdefs in Hy. cbn [flat_map] in Hy. apply in_app_or in Hy.
+  destruct st as [s e|amts args]; cbn [valid_from] in Hv.
+  - apply andb_true_iff in Hv. destruct Hv as [Hv Hr]. apply andb_true_iff in Hv. destruct Hv as [Hv _].
+    apply andb_true_iff in Hv. destruct Hv as [H1 H2]. apply negb_true_iff, not_memp in H1. apply negb_true_iff, not_memp in H2.
+    destruct Hy as [[<-|[]]|Hy]; [tauto|]. apply (IH _ _ Hr y Hy).
+  - apply andb_true_iff in Hv. destruct Hv as [Hv Hr]. apply andb_true_iff in Hv. destruct Hv as [H1 _].
+    apply negb_true_iff in H1. rewrite interp_empty in H1.
+    destruct Hy as [Hy|Hy].
+    + specialize (H1 y Hy). rewrite !in_app_iff in H1. tauto.
+    + destruct (IH _ _ Hr y Hy) as [Ha Hb]. split; [exact Ha|]. intro Hc. apply Hb. apply in_or_app. right. exact Hc.
+Qed.
+
+(* a symbol already assigned is never an amount of a later system *)
+Lemma valid_assigned_not_amount known : forall l A O, valid_from known l A O = true ->
+  forall y, In y A -> forall amts args, In (SOde amts args) l -> ~ In y amts.
+Proof.
+  induction l as [|st l IH]; intros A O Hv y Hy amts args Hin; [destruct Hin|].
+  destruct st as [s e|amts' args']; cbn [valid_from] in Hv.
+  - apply andb_true_iff in Hv. destruct Hv as [_ Hr]. destruct Hin as [Hin|Hin]; [discriminate|].
+    apply (IH _ _ Hr y (or_intror Hy) amts args Hin).
+  - apply andb_true_iff in Hv. destruct Hv as [Hv Hr]. apply andb_true_iff in Hv. destruct Hv as [H1 _].
+    apply negb_true_iff in H1. rewrite interp_empty in H1.
+    destruct Hin as [Hin|Hin].
+    + injection Hin as <- <-. intro Hc. apply (H1 y Hc). rewrite !in_app_iff. tauto.
+    + apply (IH _ _ Hr y Hy amts args Hin).
+Qed.
+
+Lemma all_sdefs_cases y : forall l i, In y (all_sdefs l) ->
+  occ y l i <> [] \/ exists amts args, In (SOde amts args) l /\ In y amts.
+Proof.
+  induction l as [|st l IH]; intros i Hy; [destruct Hy|].
+  unfold all_sdefs in Hy. cbn [flat_map] in Hy. apply in_app_or in Hy.
+  destruct st as [s e|amts args]; cbn [sdefs occ] in *.
+  - destruct Hy as [[<-|[]]|Hy].
+    + rewrite Pos.eqb_refl. left. discriminate.
+    + destruct (IH (S i) Hy) as [H|[am [ar [H1 H2]]]].
+      * left. destruct (Pos.eqb s y); [discriminate | exact H].
+      * right. exists am, ar. split; [right; exact H1 | exact H2].
+  - destruct Hy as [Hy|Hy].
+    + right. exists amts, args. split; [left; reflexivity | exact Hy].
+    + destruct (IH (S i) Hy) as [H|[am [ar [H1 H2]]]]; [left; exact H|].
+      right. exists am, ar. split; [right; exact H1 | exact H2].
+Qed.
+
+Lemma occ_tail_nonempty y st l i : occ y l (S i) <> [] -> occ y (st :: l) i <> [].
+Proof.
+  intros H. destruct st as [s e|a b]; cbn [occ]; [|exact H]. destruct (Pos.eqb s y); [discriminate | exact H].
+Qed.
+
+Definition K (l : list stm) (cur : list (id * expr)) : Prop :=
+  forall k t, In (k, t) cur -> forall y, In y (free_syms t) -> ~ In y (all_sdefs l).
+
+Lemma K_tail st l cur : K (st :: l) cur -> K l cur.
+Proof.
+  intros HK k t Hin y Hy Hd. apply (HK k t Hin y Hy). unfold all_sdefs. cbn [flat_map]. apply in_or_app. right. exact Hd.
+Qed.
+
+Lemma patched_guard_lemma known : forall l i cur dups A O,
+  valid_from known l A O = true ->
+  J A i l cur dups ->
+  K l cur ->
+  decl_guard_gen true l i cur dups [] = true.
+Proof.
+  induction l as [|st l IH]; intros i cur dups A O Hv HJ HK; [reflexivity|].
+  cbn [decl_guard_gen].
+  destruct (decl_step_gen true cur dups i st) as [[cur' dups'] out] eqn:Es.
+  pose proof (J_step true A i st l cur dups cur' dups' out HJ Es) as HJ'.
+  assert (Hdefs : forall y, In y (sdefs st) -> In y (all_sdefs (st :: l))).
+  { intros y Hy. unfold all_sdefs. cbn [flat_map]. apply in_or_app. left. exact Hy. }
+  destruct st as [x e|amts args].
+  - cbn [valid_from] in Hv. apply andb_true_iff in Hv. destruct Hv as [Hv Hr].
+    apply andb_true_iff in Hv. destruct Hv as [Hv Hfree]. rewrite forallb_forall in Hfree.
+    cbn [assigned_by app] in HJ'.
+    (* a symbol read by e that has no pending expression is never defined again *)
+    assert (Hstable : forall y, In y (free_syms e) -> alookup cur y = None -> ~ In y (all_sdefs l)).
+    { intros y Hy Hc Hd. specialize (Hfree y Hy). apply orb_true_iff in Hfree. destruct Hfree as [Hf|Hf];
+        [apply orb_true_iff in Hf; destruct Hf as [Hf|Hf]|]; apply memp_In in Hf.
+      - (* known *) destruct (valid_defs known l _ _ Hr y Hd) as [Hk1 Hk2]. contradiction.
+      - (* assigned earlier *)
+        destruct (all_sdefs_cases y l (S i) Hd) as [Ho|[am [ar [H1 H2]]]].
+        + apply (occ_tail_nonempty y (SAssign x e)) in Ho. apply memp_In in Hf.
+          destruct (proj1 (HJ y) Hf) as [[_ [_ Hn]]|[_ Hiff]]; [congruence|]. apply Hiff in Ho. congruence.
+        + eapply (valid_assigned_not_amount known l (x :: A) O Hr y); [right; exact Hf | exact H1 | exact H2].
+      - (* an amount of an earlier system *) destruct (valid_defs known l _ _ Hr y Hd) as [Hk1 Hk2]. contradiction. }
+    assert (Hstore : K l (aset x (subs_map cur e) cur)).
+    { intros k t Hin y Hy. destruct Hin as [Hin|Hin].
+      - injection Hin as <- <-. apply (proj1 (free_syms_subs_map cur)) in Hy.
+        destruct Hy as [[Hy Hc]|[k' [t' [Hl [_ Hy]]]]]; [apply Hstable; assumption|].
+        apply (K_tail _ _ _ HK k' t' (alookup_In _ _ _ Hl) y Hy).
+      - apply In_aremove in Hin. apply (K_tail _ _ _ HK k t Hin y Hy). }
+    cbn [decl_step_gen] in Es. destruct (classify dups i x) as [kd d'] eqn:Ec. cbn [fst].
+    destruct kd; injection Es as <- <- _.
+    + (* KPlain *)
+      rewrite (poison_none cur [x]).
+      2:{ intros k t Hin y Hy Hd. apply (HK k t Hin y Hy). apply Hdefs. exact Hd. }
+      rewrite use_ok_nil. cbn [andb]. eapply IH; [exact Hr | exact HJ' | apply (K_tail _ _ _ HK)].
+    + (* KFirst *)
+      rewrite use_ok_nil. cbn [andb]. change (removep x []) with (@nil id). eapply IH; [exact Hr | exact HJ' | exact Hstore].
+    + (* KMiddle *)
+      rewrite use_ok_nil. cbn [andb]. change (removep x []) with (@nil id). eapply IH; [exact Hr | exact HJ' | exact Hstore].
+    + (* KLast *)
+      change (removep x []) with (@nil id). rewrite (poison_none (aremove x cur) [x]).
+      2:{ intros k t Hin y Hy Hd. apply In_aremove in Hin. apply (HK k t Hin y Hy). apply Hdefs. exact Hd. }
+      rewrite use_ok_nil. cbn [andb]. eapply IH; [exact Hr | exact HJ' |].
+      intros k t Hin. apply In_aremove in Hin. apply (K_tail _ _ _ HK k t Hin).
+  - cbn [valid_from] in Hv. apply andb_true_iff in Hv. destruct Hv as [Hv Hr].
+    apply andb_true_iff in Hv. destruct Hv as [Hdis _]. apply negb_true_iff in Hdis. rewrite interp_empty in Hdis.
+    cbn [decl_step_gen] in Es. injection Es as <- <- _. cbn [assigned_by app] in HJ'.
+    rewrite use_ok_nil.
+    assert (Hk : interp_nonempty amts (akeys cur) = false).
+    { apply interp_empty. intros a Ha. apply alookup_None_keys.
+      assert (Hna : memp a A = false).
+      { apply not_memp. intro Hin. apply (Hdis a Ha). rewrite !in_app_iff. tauto. }
+      apply (proj2 (HJ a) Hna). }
+    rewrite Hk. cbn [negb andb].
+    rewrite (poison_none cur amts).
+    2:{ intros k t Hin y Hy Ha. apply (HK k t Hin y Hy). apply Hdefs. exact Ha. }
+    eapply IH; [exact Hr | exact HJ' | apply (K_tail _ _ _ HK)].
+Qed.
+
+Lemma patched_guard_on_valid known l : g_valid known l = true -> g_no_stale_capture_patched l = true.
+Proof.
+  intros Hv. unfold g_no_stale_capture_patched. eapply patched_guard_lemma; [exact Hv | apply J_init |].
+  intros k t [].
+Qed.
+
+Lemma declarative_patched_correct_lemma known l :
+  g_valid known l = true ->
+  forall fi ode r x, sexec fi ode r (declarative_patched l) x = sexec fi ode r l x.
+Proof.
+  intros Hv fi ode. apply declarative_patched_preserves_lemma. eapply patched_guard_on_valid. exact Hv.
+Qed.
